@@ -366,6 +366,11 @@ def run(chk):
         rjobs += [('float32', 'float32'), ('int64', 'float64'), ('float64', 'float32')]
     run_jobs(chk, job_routes, rjobs)
     run_jobs(chk, job_canary, list(kin.KERNELS))
+    # single-precision magnitude of every intermediate over the unit grid (the job lives with the unit checks of C07; here with C01's
+    # wider value ranges and with every float32 product / quotient / power, not only the casts)
+    from . import c07_units
+    fj = [(si, ('float32',) * len(spec[2]), 'wide', 'C01') for si, spec in enumerate(c07_units.SPECS) if spec[1] in kin.KERNELS]
+    run_jobs(chk, c07_units.job_f32range, fj)
     hist = [(k, a, b) for k in kin.KERNELS for a, b in (('float32', 'float64'), ('float64', 'float32'), ('int64', 'float64'))]
     run_jobs(chk, job_history, hist)
     chk.bounds = {'array_len': 2, 'shapes': 'scalar, 1-d x 1-d (outer), 2-d x 1-d, 1-d x scalar, scalar x 1-d' + (' for every dtype combination and angle unit' if chk.tier == 'thorough' else ' (selected kernels)'), 'dtypes': 'data {f64,f32,i64} x other {f64,f32}',
@@ -403,10 +408,18 @@ def replay_real(case):
                 continue
         return unit
 
+    wide = case.get('kind') == 'f32range'
+
     def mk(kind, dtype, unit, n=None):
         lo, hi = {'time': (1e-6, 1e-1), 'length': (1.0, 150.0), 'energy': (1.6e-23, 1.6e-20), 'wavelength': (1e-11, 2e-9),
                   'invlength': (1e8, 1e11), 'angle': (0.01, 3.1)}[kind]
+        if wide and kind != 'angle':
+            # the sub-ranges of the quantifier used by the float32-range obligations, with their corners
+            lo, hi = {'time': (1e-9, 1e-1), 'length': (1e-2, 1e3), 'energy': (1.7e-26, 1.6e-15), 'wavelength': (1e-12, 1e-8), 'invlength': (1e7, 1e12)}[kind]
         x_si = np.exp(rng.uniform(np.log(lo), np.log(hi), size=n or 1))
+        if wide and kind != 'angle' and (n or 1) >= 8:
+            small_first = kind in ('time', 'wavelength')
+            x_si[:4] = [lo, hi, lo * 3, hi / 3] if small_first else [hi, lo, hi / 3, lo * 3]
         if kind == 'angle' and (n or 1) >= 8 and not dtype.startswith('int'):
             # the ends of the domain (0, pi]: tiny scattering angles and back-scattering
             x_si[:6] = [1e-9, 2e-8, 1e-6, 1e-4, 3.14159, 3.141592653]
@@ -492,6 +505,9 @@ def replay_real(case):
         b1 = one_kernel(kname, [case['first']] * n)
         b2 = one_kernel(kname, [case['second']] * n)
         return {'reproduced': bool(b2), 'detail': '; '.join(f'after a {case["first"]} call: {b}' for b in b2[:3])}
+    if kind == 'f32range':
+        bad = one_kernel(case['fname'], case['dtypes'])
+        return {'reproduced': bool(bad), 'detail': '; '.join(bad[:3])}
     if kind == 'kernel':
         bad = one_kernel(case['kernel'], case['dtypes'], case.get('shapes'))
         return {'reproduced': bool(bad), 'detail': '; '.join(bad[:3])}
